@@ -1392,10 +1392,14 @@ class Interp(object):
     def _finish(self, st, done, on_done):
         self.stats["paths"] += 1
         self.stats["steps"] += st.steps
-        if st.outcome == "unsupported" and st.frames:
-            fr = st.frames[-1]
-            if isinstance(fr, Frame):
-                st.detail = "%s [in %s bb%d]" % (st.detail, fr.fn["name"][:120], fr.bb)
+        if st.outcome in ("unsupported", "memory-error", "engine-error") and st.frames:
+            locs = []
+            for fr in reversed(st.frames):
+                if isinstance(fr, Frame):
+                    locs.append("%s bb%d/%d" % (fr.fn["name"][:110], fr.bb, fr.si))
+                if len(locs) >= 3:
+                    break
+            st.detail = "%s [in %s]" % (st.detail, " <- ".join(locs))
         if on_done is not None:
             on_done(st)
         st.mem = None
